@@ -54,9 +54,12 @@ def countrate (E : Env K) (thr atol rtol : K) (o : Obs K) (area : Option K) (bin
               else throw .partialOverlap
           | .full => pure (w1, w2)
         if binned then do
-          let edges ← match wl with
-            | none => pure o.bins.edges
-            | some _ => binEdges x
+          let (edges, y) ← match wl with
+            | none => pure (o.bins.edges, y)
+            | some _ => do
+                let e ← binEdges x
+                -- the lookup needs ascending edges (052fdd8)
+                pure (if isDesc e then (e.reverse, y.reverse) else (e, y))
           let i1 : Int := (searchLeft edges w1 : Int) - 1
           let i2 : Int := searchLeft edges w2
           pure (pySlice y i1 i2)
